@@ -7,6 +7,7 @@ import (
 
 	exsrv "github.com/cybergarage/go-redis/examples/go-redisd/server"
 	"github.com/cybergarage/go-redis/redis/glob"
+	"verif/double"
 	"verif/gen"
 	"verif/globref"
 	"verif/resp"
@@ -266,6 +267,106 @@ func c17server(res *run.Result, pats []string) {
 		}
 	}
 	res.Sample = nil
+	c17iterate(res, pats)
+}
+
+// c17iterate: SCAN the way clients use it - start at cursor 0, pass the returned cursor back until 0 comes back -
+// with small and default COUNT values. The union of the keys returned by one full iteration (the key space does
+// not change meanwhile) must be exactly the keys the pattern selects, and the iteration must end.
+func c17iterate(res *run.Result, pats []string) {
+	srv := exsrv.NewServer().Server
+	conn := sconn.New(sconn.Script{End: sconn.Hold})
+	wait := double.Start(srv, conn, nil)
+	defer func() {
+		conn.End(sconn.EOF)
+		wait(serveWait)
+	}()
+	exchange := func(req resp.Value) (resp.Value, bool) {
+		off := conn.OutLen()
+		conn.Feed(resp.Encode(req))
+		if conn.WaitIdle(serveWait) != nil {
+			return resp.Value{}, false
+		}
+		vs, _, rest, bad, _ := resp.DecodeAll(conn.OutFrom(off))
+		if bad != "" || rest != 0 || len(vs) != 1 {
+			return resp.Value{}, false
+		}
+		return vs[0], true
+	}
+	for i, k := range c17.storeKey {
+		var req resp.Value
+		switch i % 5 {
+		case 0:
+			req = resp.Cmd("HSET", k, "f", "v")
+		case 1:
+			req = resp.Cmd("RPUSH", k, "e")
+		case 2:
+			req = resp.Cmd("SADD", k, "m")
+		default:
+			req = resp.Cmd("SET", k, "v")
+		}
+		if _, ok := exchange(req); !ok {
+			res.Inconclusive = "population of the store failed"
+			return
+		}
+	}
+	if len(pats) > 4 {
+		pats = pats[:4]
+	}
+	for pi, p := range append([]string{"*"}, pats...) {
+		want := map[string]bool{}
+		for _, k := range c17.storeKey {
+			if globref.Match(p, k) {
+				want[k] = true
+			}
+		}
+		for _, count := range []string{"", "1", "3", "7"}[pi%2*2 : pi%2*2+2] {
+			got := map[string]bool{}
+			cursor, steps, done := "0", 0, false
+			for steps = 0; steps < 2*len(c17.storeKey)+10; steps++ {
+				args := []string{"SCAN", cursor, "MATCH", p}
+				if count != "" {
+					args = append(args, "COUNT", count)
+				}
+				v, ok := exchange(resp.Cmd(args...))
+				if !ok || v.K != '*' || len(v.A) != 2 || v.A[1].K != '*' {
+					res.Violate("C17:server:scan-iteration-reply:"+metaClass(p), "SCAN MATCH selects the keys the glob matches", fmt.Sprintf("SCAN %s MATCH %q COUNT %q answered %s", cursor, p, count, clipS(v.String(), 200)), map[string]any{"pattern": p})
+					return
+				}
+				for _, k := range v.A[1].A {
+					got[string(k.B)] = true
+				}
+				cursor = string(v.A[0].B)
+				if cursor == "0" {
+					done = true
+					break
+				}
+			}
+			res.Count("scan_iterations", 1)
+			res.Count("scan_iteration_calls", int64(steps+1))
+			if !done {
+				res.Violate("C17:server:scan-iteration-endless", "KEYS and SCAN MATCH agree on which keys a pattern selects (a SCAN iteration ends with cursor 0)", fmt.Sprintf("SCAN MATCH %q COUNT %q over %d keys: cursor 0 did not come back within %d calls (last cursor %s)", p, count, len(c17.storeKey), steps, cursor), map[string]any{"pattern": p, "count": count})
+				return
+			}
+			var missing, extra []string
+			for k := range want {
+				if !got[k] {
+					missing = append(missing, fmt.Sprintf("%q", k))
+				}
+			}
+			for k := range got {
+				if !want[k] {
+					extra = append(extra, fmt.Sprintf("%q", k))
+				}
+			}
+			if len(missing)+len(extra) > 0 {
+				sort.Strings(missing)
+				sort.Strings(extra)
+				res.Violate("C17:server:scan-iteration:"+metaClass(p), "KEYS and SCAN MATCH agree on which keys a pattern selects", fmt.Sprintf("a full SCAN iteration (MATCH %q COUNT %q, %d calls) selected %d keys; missing {%s} extra {%s}", p, count, steps+1, len(got), clipS(strings.Join(missing, " "), 200), clipS(strings.Join(extra, " "), 200)), map[string]any{"pattern": p, "count": count})
+				return
+			}
+		}
+	}
 }
 
 func init() {
@@ -276,7 +377,7 @@ func init() {
 			if tier == "thorough" {
 				blocks = "complete blocks: patterns <=3 x keys <=5, patterns =4 x keys <=4, patterns =5 x keys <=3 over {a,b,*,?,.,+,(,|,$}; the remaining patterns =5 x keys 4..5 block is sampled (150 keys per pattern)"
 			}
-			return "part 1: glob.Compile(p) must not fail or panic and MatchString(k) must equal a direct recursive glob matcher: " + blocks + "; plus seeded random patterns up to length 12 over that alphabet extended with ^ { } ) , space newline 0, each against 60 keys derived from the pattern or random. part 2: the bundled example store is populated through the real connection loop with all 91 keys of length <=2 (as string, hash, list and set keys) and for every pattern of length <=3 plus seeded longer ones the key sets of KEYS p, SCAN 0 MATCH p COUNT 1000 and the reference selection must be equal. distinct_nontrivial = distinct patterns containing a wildcard or a regexp metacharacter (part 1) plus server patterns (part 2)"
+			return "part 1: glob.Compile(p) must not fail or panic and MatchString(k) must equal a direct recursive glob matcher: " + blocks + "; plus seeded random patterns up to length 12 over that alphabet extended with ^ { } ) , space newline 0, each against 60 keys derived from the pattern or random. part 2: the bundled example store is populated through the real connection loop with all 91 keys of length <=2 (as string, hash, list and set keys) and for every pattern of length <=3 plus seeded longer ones the key sets of KEYS p, SCAN 0 MATCH p COUNT 1000 and the reference selection must be equal; for '*' and four patterns of each batch a full SCAN iteration (cursor 0, then the returned cursor, until 0 comes back) with default COUNT and COUNT 1, 3, 7 must end and select exactly those keys. distinct_nontrivial = distinct patterns containing a wildcard or a regexp metacharacter (part 1) plus server patterns (part 2)"
 		},
 		Exhaustive:  func(tier string) bool { return false },
 		Assumptions: []string{"patterns and keys are ASCII; '[', ']' and '\\' (character classes and escapes of Redis globs) are outside the statement and never generated"},
